@@ -68,13 +68,13 @@ def shard_jobs(prop, tier, bins, work):
                 args = ["-n", str(nev), "-seed", str(sd)]
 
                 def record(path, args=args):
-                    vf.run([bins["rec-searchops"]] + args + ["-corpus", CORPUS, "-out", path], timeout=900)
+                    vf.run_recorder([bins["rec-searchops"]] + args + ["-corpus", CORPUS, "-out", path], timeout=900)
                 jobs.append(dict(name="%s-searchops-%d" % (prop, i), record=record, args=["searchops"] + args))
                 continue
             args = ["-mode", mode, "-obs", obs, "-n", str(nev), "-seed", str(sd)] + list(extra)
 
             def record(path, args=args):
-                vf.run([bins["rec-board"]] + args + ["-corpus", CORPUS, "-out", path], timeout=900)
+                vf.run_recorder([bins["rec-board"]] + args + ["-corpus", CORPUS, "-out", path], timeout=900)
             jobs.append(dict(name="%s-%s-%d" % (prop, mode, i), record=record, args=args))
     return jobs
 
@@ -162,7 +162,7 @@ def enum_classes(prop, tier, bins, work, res):
             args = ["-mode", "enum", "-x", str(x), "-shard", str(i), "-nshards", str(nsh), "-every", str(every)]
 
             def record(path, args=args):
-                vf.run([bins["rec-board"]] + args + ["-out", path], timeout=900)
+                vf.run_recorder([bins["rec-board"]] + args + ["-out", path], timeout=900)
             jobs.append(dict(name="%s-enum-%d-%d" % (prop, x, i), record=record, args=args))
     er = tc.run_shards(work, "EnumTrace", jobs, timeout=6000)
     indices = 0
@@ -262,9 +262,9 @@ def do_replay(prop, replay, bins, work):
     if "recorder_args" in sc:
         # an engine panic / an enumerated class: re-run the very same recorder invocation (deterministic)
         if sc["recorder_args"] and sc["recorder_args"][0] == "searchops":
-            vf.run([bins["rec-searchops"]] + sc["recorder_args"][1:] + ["-corpus", CORPUS, "-out", path], timeout=900)
+            vf.run_recorder([bins["rec-searchops"]] + sc["recorder_args"][1:] + ["-corpus", CORPUS, "-out", path], timeout=900)
         else:
-            vf.run([bins["rec-board"]] + sc["recorder_args"] + ["-corpus", CORPUS, "-out", path], timeout=900)
+            vf.run_recorder([bins["rec-board"]] + sc["recorder_args"] + ["-corpus", CORPUS, "-out", path], timeout=900)
         if "enum" in sc["recorder_args"]:
             _, mm, total = tc.validate_trace(work, "EnumTrace", path, timeout=3000)
             if [m for m in mm if m["rule"].startswith(RULES[prop])]:
